@@ -19,4 +19,17 @@ CLAIMS = {
     },
 }
 
+CLAIMS["C12"] = {
+    "text": "Full proof, unbounded in the integers: for all server and client settings (any Int window bits/threshold, all flags) the modelled handshake (option normalisation, offer generation, server parameter selection, response generation, client parsing) leaves both endpoints with the same Enabled, takeover flags and window sizes; enabled iff both enabled; takeover iff neither declined; sizes in 8..15; parsing is invariant under permutation and ASCII white-space padding of the parameter list (Nego.parse_perm_ws). The string functions are modelled on List Char and run against the real header functions (hooks) and real gws-to-gws handshakes.",
+    "note": "Trusted: Lean kernel; Go strings/strconv semantics as modelled (ASCII white space); net/http header transport (sampled with real handshakes).",
+    "technique": "Lean 4 theorems over a List Char model of the negotiation code + differential correspondence (pure pipeline via hooks and real handshakes)",
+    "design_ref": "DESIGN.md section 5, C12",
+}
+CLAIMS["C16"] = {
+    "text": "Proof of the gate logic: with checking on a Text/Close payload given as any slice list passes iff the concatenation is valid UTF-8 (Utf8.write_gate), splitting is irrelevant, binary/control payloads and checking-off never reject. Read-side clauses (after reassembly and inflation, 1007, never delivered) are theorems over the read-path model; utf8.Valid = RFC 3629 is assumed and compared exhaustively for <= 3 bytes every run.",
+    "note": "Trusted: Lean kernel; unicode/utf8.Valid = RFC 3629 (exhaustively sampled <= 3 bytes); read-path model tied by the read suite.",
+    "technique": "Lean 4 theorems over the gate and read-path model + exhaustive/differential correspondence",
+    "design_ref": "DESIGN.md section 5, C16",
+}
+
 NOT_CLAIMED = {}
